@@ -55,6 +55,11 @@ def obligations(tier):
                   funcs=("chartparse.chart.Chart.from_file (whole pipeline, native execution)",),
                   bounds="30/120/400 parses in one fresh interpreter alternating two of four texts that share every tick but differ in tempo map / resolution, "
                          "each chart dropped at once (freed objects, recycled addresses): every parse identical to the first parse of its text"))
+    obs.append(Ob("C01.witness_replay", "PY", "vf.fk_witness", "check", 300,
+                  funcs=("chartparse.sync.SyncTrack.from_chart_lines", "chartparse.sync.BPMEvents.timestamp_at_tick_no_optimize_return", "chartparse.tick.seconds_from_ticks_at_bpm (real arithmetic)", "chartparse.time.add"),
+                  bounds="z3 generates 70 integer witnesses in 14 rare regions (sub-microsecond ticks before a tempo change, long runs of them, a tempo change more than a day into the chart, "
+                         "exact half-microsecond offsets, tempo ratios of 10^9); each is replayed through the real parser and query (native floats) and judged against exact rationals: "
+                         "|time-exact| <= 0.501 us per segment, tick 0 = 0, non-decreasing, strictly increasing where every tick lasts >= 2 us, stored tempo times = queried times"))
     return obs
 
 
